@@ -27,6 +27,8 @@ FAIL_KINDS = [
     (r"cannot show invariant holds", "inv"),
     (r"failed to prove .*", "other_proof"),
     (r"ensures not satisfied", "post"),
+    (r"unable to prove post-condition of closure", "closure_post"),
+    (r"Call to non-static function fails to satisfy `callee.requires", "pre"),
     (r"index out of bounds", "bounds"),
     (r"unwrap.* precondition", "pre"),
 ]
